@@ -40,6 +40,7 @@ func propC03(r *kernel.Run) {
 		if tp.Draw(3) == 0 {
 			nbSkew, naSkew = 0, 0
 		}
+		w.NilOpt = tp.Draw(5) == 0
 		opts := w.Opts(nodeenrollment.WithNotBeforeClockSkew(nbSkew), nodeenrollment.WithNotAfterClockSkew(naSkew))
 
 		var req *types.FetchNodeCredentialsRequest
